@@ -244,9 +244,10 @@ func checkScript(sc Script) (skipped bool, err error) {
 	a := sess.New(scriptCfg)
 	a.Run(gen.TypedPrelude)
 	ra := a.Run(whole)
-	if ra.Failed() || ra.Cont {
+	if ra.Cont || sess.TimedOut(ra) {
 		return true, nil
 	}
+	wholeFails := ra.Failed() // then the chunk holding the failing statement must fail too, after the same output
 	b := sess.New(scriptCfg)
 	b.Run(gen.TypedPrelude)
 	var out strings.Builder
@@ -262,9 +263,21 @@ func checkScript(sc Script) (skipped bool, err error) {
 		if sess.TimedOut(rb) {
 			return true, nil
 		}
+		if wholeFails && rb.Failed() && !rb.Cont {
+			if out.String() != ra.Out {
+				return false, fmt.Errorf("the script fails when run at once and in chunks, but after different output: at once\n%q\nin chunks (split before statements %v)\n%q\nscript:\n%s", ra.Out, sc.Splits, out.String(), whole)
+			}
+			if ga, gb := a.Globals(), b.Globals(); ga != gb {
+				return false, fmt.Errorf("globals differ after the failure, at once vs in chunks (split before statements %v):\n--- at once\n%s--- in chunks\n%s\nscript:\n%s", sc.Splits, ga, gb, whole)
+			}
+			return false, nil
+		}
 		if rb.Failed() || rb.Cont {
 			return false, fmt.Errorf("the script runs without error at once, but fed in chunks the chunk %q fails: %v (continuation=%v)\nscript:\n%s", chunk, rb.Errs, rb.Cont, whole)
 		}
+	}
+	if wholeFails {
+		return false, fmt.Errorf("the script fails when run at once (%v) but every chunk succeeds (split before statements %v)\nscript:\n%s", ra.Errs, sc.Splits, whole)
 	}
 	if out.String() != ra.Out {
 		return false, fmt.Errorf("output differs: at once\n%q\nin chunks (split before statements %v)\n%q\nscript:\n%s", ra.Out, sc.Splits, out.String(), whole)
@@ -296,18 +309,36 @@ func TestScripts(t *testing.T) {
 		}
 		crossUse := false
 		if rapid.Bool().Draw(rt, "macros") {
-			k := rapid.IntRange(0, len(macroDefs)-1).Draw(rt, "macro")
+			// 1..3 macro definitions, adjacent or spread, each used after its definition
+			ks := rapid.Permutation([]int{0, 1, 2}).Draw(rt, "macroorder")[:rapid.IntRange(1, 3).Draw(rt, "nmacros")]
+			adjacent := rapid.Bool().Draw(rt, "adjacent")
 			pos := rapid.IntRange(0, len(sc.Stmts)).Draw(rt, "defpos")
-			sc.Stmts = append(sc.Stmts[:pos], append([]string{macroDefs[k]}, sc.Stmts[pos:]...)...)
-			for u := rapid.IntRange(1, 3).Draw(rt, "uses"); u > 0; u-- {
-				up := rapid.IntRange(pos+1, len(sc.Stmts)).Draw(rt, "usepos")
-				use := macroUses[k]
-				if k == 1 && rapid.Bool().Draw(rt, "alt") {
-					use = macroUses[3]
+			insert := func(at int, what string) {
+				sc.Stmts = append(sc.Stmts[:at], append([]string{what}, sc.Stmts[at:]...)...)
+			}
+			last := pos
+			for i, k := range ks {
+				at := pos + i
+				if !adjacent && i > 0 {
+					at = rapid.IntRange(last+1, len(sc.Stmts)).Draw(rt, "nextdefpos")
 				}
-				sc.Stmts = append(sc.Stmts[:up], append([]string{use}, sc.Stmts[up:]...)...)
+				insert(at, macroDefs[k])
+				last = at
+			}
+			for _, k := range ks {
+				for u := rapid.IntRange(1, 2).Draw(rt, "uses"); u > 0; u-- {
+					up := rapid.IntRange(last+1, len(sc.Stmts)).Draw(rt, "usepos")
+					use := macroUses[k]
+					if k == 1 && rapid.Bool().Draw(rt, "alt") {
+						use = macroUses[3]
+					}
+					insert(up, use)
+				}
 			}
 			crossUse = true
+			if adjacent && len(ks) > 1 {
+				pbt.Label("script:adjacent-macro-definitions")
+			}
 		}
 		if len(sc.Stmts) < 2 {
 			sc.Stmts = append(sc.Stmts, "println(\"end\")", "zz9 = 1")
@@ -333,7 +364,7 @@ func TestScripts(t *testing.T) {
 		}
 		lbl := "script:chunked"
 		if skipped {
-			lbl = "script:skipped(ends in error or deadline when run at once)"
+			lbl = "script:skipped(deadline or incomplete when run at once)"
 		}
 		pbt.Case(!skipped && crossUse, strings.Join(sc.Stmts, "\n")+fmt.Sprint(sc.Splits), lbl)
 		pbt.Sample("script", sc)
